@@ -153,6 +153,25 @@ def law_area(args):
     return None
 
 
+def law_from_positions(args):
+    """the area spanned by a collection of positions is their bounding box, whatever their number and order; and the area
+    spanned by the transformed positions of an area's corners is the transformed area"""
+    pts = [tuple(p) for p in args[0]]
+    want = ((min(p[0] for p in pts), max(p[0] for p in pts)), (min(p[1] for p in pts), max(p[1] for p in pts)))
+    for order in itertools.permutations(pts):
+        got = Area.from_positions([P(p) for p in order])
+        if ((got.ymin, got.ymax), (got.xmin, got.xmax)) != want:
+            return f'Area.from_positions({list(order)}) = {((got.ymin, got.ymax), (got.xmin, got.xmax))}, bounding box is {want}'
+    if len(args) > 1:
+        tr = T(args[1])
+        a = Area(want[0], want[1])
+        corners = [(a.ymin, a.xmin), (a.ymax, a.xmax)]
+        img = Area.from_positions([tr * P(c) for c in corners])
+        if img != tr * a:
+            return 'the area spanned by the transformed opposite corners differs from the transformed area'
+    return None
+
+
 def _index_rot(rows, h):
     """harness index arithmetic for `grid * h` (the grid as seen by an agent heading h)"""
     H, W = len(rows), len(rows[0])
@@ -310,6 +329,7 @@ def law_alias(args):
 
 
 LAWS = {
+    'from_positions': law_from_positions,
     'imul': law_imul,
     'alias': law_alias,
     'neg_history': law_neg_history,
@@ -400,6 +420,9 @@ def run(rep, tier, seed):
     jobs.append(('neg_history', [[a, b] for a in transforms for b in transforms[::7]]))
     jobs.append(('alias', [[a, b] for a in transforms for b in transforms[::7]]))
     jobs.append(('imul', [[a, b] for a in transforms for b in transforms[::3]]))
+    small = [(y, x) for y in range(-1, 2) for x in range(-2, 2)]
+    jobs.append(('from_positions', [[[p]] for p in box] + [[[p, q], t] for p in box for q in box[::3] for t in transforms[::11]]
+                 + [[list(c)] for c in itertools.combinations(small, 3)] + [[list(c)] for c in itertools.combinations(small[::2], 4)]))
     for t1 in transforms:
         jobs.append(('transform3', _T3(t1, transforms)))
     areas = [
